@@ -396,7 +396,7 @@ var propStreams = map[string][]string{
 	"C08": {"SPARSE"},
 	"C09": {"COMPACT", "CHIST"},
 	"C10": {"SHARE", "COMPACT", "SPARSE", "CHIST"},
-	"C11": {"COMPACT"},
+	"C11": {"COMPACT", "CHIST"},
 	"C12": {"BUILDER", "COMPACT", "CHIST", "BHIST"},
 	"C13": {"COUNTER", "ARITHLEN", "SPARSE", "BUILDER", "BHIST"},
 	"C14": {"BHIST", "CHIST"},
